@@ -44,22 +44,28 @@ binop16!(c01b_arithmetic_li16, "C01b.arithmetic.li16", nt_word_binary_arithmetic
     |vm: &mut VM, ctx: &mut Context, f, d: &Op, s: &Op| p_binary_arithmetic__word_binary_arithmetic__word_label__COMMA__s_word_num(CUR, vm, ctx, "", (0, f, 0), (0, d.m, 0), C, (0, s.imm as i16, 0)));
 
 unop!(c01b_unary_r8, "C01b.unary.r8", u8, 8, nt_byte_unary_arithmetic, NT_byte_unary_arithmetic_N, NT_byte_unary_arithmetic_TEXT, NT_byte_unary_arithmetic_ID, dst_reg8,
+    |id: u8| id == ID_dec || id == ID_inc || id == ID_neg, no,
+    |vm: &mut VM, ctx: &mut Context, f, d: &Op| p_unary_arithmetic__byte_unary_arithmetic__byte_reg(CUR, vm, ctx, "", (0, f, 0), (0, d.b, 0)));
+frame_only_un!(c01b_unary_r8_frame, "C01b.unary.r8", nt_byte_unary_arithmetic, NT_byte_unary_arithmetic_N, NT_byte_unary_arithmetic_ID, dst_reg8,
     |id: u8| id == ID_dec || id == ID_inc || id == ID_neg,
     |vm: &mut VM, ctx: &mut Context, f, d: &Op| p_unary_arithmetic__byte_unary_arithmetic__byte_reg(CUR, vm, ctx, "", (0, f, 0), (0, d.b, 0)));
 unop!(c01b_unary_m8, "C01b.unary.m8", u8, 8, nt_byte_unary_arithmetic, NT_byte_unary_arithmetic_N, NT_byte_unary_arithmetic_TEXT, NT_byte_unary_arithmetic_ID, opnd_mem,
-    |id: u8| id == ID_dec || id == ID_inc || id == ID_neg,
+    |id: u8| id == ID_dec || id == ID_inc || id == ID_neg, yes,
     |vm: &mut VM, ctx: &mut Context, f, d: &Op| p_unary_arithmetic__byte_unary_arithmetic__T_byte__memory_addr(CUR, vm, ctx, "", (0, f, 0), KB, (0, d.m, 0)));
 unop!(c01b_unary_l8, "C01b.unary.l8", u8, 8, nt_byte_unary_arithmetic, NT_byte_unary_arithmetic_N, NT_byte_unary_arithmetic_TEXT, NT_byte_unary_arithmetic_ID, opnd_lab,
-    |id: u8| id == ID_dec || id == ID_inc || id == ID_neg,
+    |id: u8| id == ID_dec || id == ID_inc || id == ID_neg, yes,
     |vm: &mut VM, ctx: &mut Context, f, d: &Op| p_unary_arithmetic__byte_unary_arithmetic__byte_label(CUR, vm, ctx, "", (0, f, 0), (0, d.m, 0)));
 unop!(c01b_unary_r16, "C01b.unary.r16", u16, 16, nt_word_unary_arithmetic, NT_word_unary_arithmetic_N, NT_word_unary_arithmetic_TEXT, NT_word_unary_arithmetic_ID, dst_reg16,
+    |id: u8| id == ID_dec || id == ID_inc || id == ID_neg, no,
+    |vm: &mut VM, ctx: &mut Context, f, d: &Op| p_unary_arithmetic__word_unary_arithmetic__word_reg(CUR, vm, ctx, "", (0, f, 0), (0, d.w, 0)));
+frame_only_un!(c01b_unary_r16_frame, "C01b.unary.r16", nt_word_unary_arithmetic, NT_word_unary_arithmetic_N, NT_word_unary_arithmetic_ID, dst_reg16,
     |id: u8| id == ID_dec || id == ID_inc || id == ID_neg,
     |vm: &mut VM, ctx: &mut Context, f, d: &Op| p_unary_arithmetic__word_unary_arithmetic__word_reg(CUR, vm, ctx, "", (0, f, 0), (0, d.w, 0)));
 unop!(c01b_unary_m16, "C01b.unary.m16", u16, 16, nt_word_unary_arithmetic, NT_word_unary_arithmetic_N, NT_word_unary_arithmetic_TEXT, NT_word_unary_arithmetic_ID, opnd_mem,
-    |id: u8| id == ID_dec || id == ID_inc || id == ID_neg,
+    |id: u8| id == ID_dec || id == ID_inc || id == ID_neg, yes,
     |vm: &mut VM, ctx: &mut Context, f, d: &Op| p_unary_arithmetic__word_unary_arithmetic__T_word__memory_addr(CUR, vm, ctx, "", (0, f, 0), KW, (0, d.m, 0)));
 unop!(c01b_unary_l16, "C01b.unary.l16", u16, 16, nt_word_unary_arithmetic, NT_word_unary_arithmetic_N, NT_word_unary_arithmetic_TEXT, NT_word_unary_arithmetic_ID, opnd_lab,
-    |id: u8| id == ID_dec || id == ID_inc || id == ID_neg,
+    |id: u8| id == ID_dec || id == ID_inc || id == ID_neg, yes,
     |vm: &mut VM, ctx: &mut Context, f, d: &Op| p_unary_arithmetic__word_unary_arithmetic__word_label(CUR, vm, ctx, "", (0, f, 0), (0, d.m, 0)));
 #[cfg_attr(kani, kani::proof)]
 pub fn c01b_twin_reach() {
@@ -93,9 +99,11 @@ pub const TABLE: &[(&str, fn())] = &[
     ("c01b_arithmetic_mi16", c01b_arithmetic_mi16),
     ("c01b_arithmetic_li16", c01b_arithmetic_li16),
     ("c01b_unary_r8", c01b_unary_r8),
+    ("c01b_unary_r8_frame", c01b_unary_r8_frame),
     ("c01b_unary_m8", c01b_unary_m8),
     ("c01b_unary_l8", c01b_unary_l8),
     ("c01b_unary_r16", c01b_unary_r16),
+    ("c01b_unary_r16_frame", c01b_unary_r16_frame),
     ("c01b_unary_m16", c01b_unary_m16),
     ("c01b_unary_l16", c01b_unary_l16),
     ("c01b_twin_reach", c01b_twin_reach),
